@@ -34,6 +34,10 @@ func run(r *core.Run) {
 		tables(r)
 		r.Logf("tables done in %v", time.Since(t0))
 	}
+	if r.ShardIdx == r.ShardN-1 && (only == "" || only == "fifo") {
+		bufferFifo(r)
+		r.Logf("buffer fifo done in %v", time.Since(t0))
+	}
 	if only == "" || only == "ahead" {
 		aheadAndProgress(r)
 		r.Logf("ahead+progress done in %v", time.Since(t0))
@@ -120,6 +124,21 @@ func replay(r *core.Run, raw json.RawMessage) bool {
 	case "compose":
 		_, f, pv := runHistory(*c.Spec, c.Ops, true)
 		fmt.Printf("  reader:  %s\n  history: %v\n", c.Spec, c.Ops)
+		if pv != nil {
+			fmt.Printf("  observed: panic %v\n", pv)
+			return true
+		}
+		if f != nil {
+			fmt.Printf("  observed vs reference: %s\n", f.msg)
+			return true
+		}
+		return false
+	case "buffer-fifo":
+		var ops []FOp
+		b, _ := json.Marshal(c.Args["ops"])
+		_ = json.Unmarshal(b, &ops)
+		_, f, pv := runFifo(ops)
+		fmt.Printf("  bitio.Buffer history: %v\n", ops)
 		if pv != nil {
 			fmt.Printf("  observed: panic %v\n", pv)
 			return true
